@@ -122,6 +122,43 @@ func runC13(c *core.Ctx) {
 	c13Sequences(c)
 	c13Resign(c)
 	c13HeldOutputs(c)
+	c13PeerShapes(c)
+}
+
+// c13EndpointQueries are query strings an IdP endpoint Location may carry already; most of them are not byte-identical to their re-encoded
+// form (escapes a re-encoder would write differently, valueless parameters, unsorted names, separators inside values).
+var c13EndpointQueries = []string{"", "?x=1&y=2", "?tenant=acme%20corp", "?passive", "?spEntityID=https://sp.example.com/metadata", "?b=2&a=1",
+	"?a=1&", "?a=b+c", "?a=%2f%3a", "?%C3%A9=1", "?a==b", "?a=b;c", "?a=1&a=2"}
+
+// c13PeerShapes: what the IdP's metadata says about itself must not change whether or how the SP signs: endpoint Locations with every
+// query-string shape above x WantAuthnRequestsSigned absent / "true" / "false" x every message kind, for an RSA and an ECDSA key.
+func c13PeerShapes(c *core.Ctx) {
+	c.Group("idp-endpoint-query-shapes-x-want-requests-signed")
+	tr, fa := true, false
+	wants := []*bool{nil, &tr, &fa}
+	for _, km := range [][2]string{{"sp2048", dsig.RSASHA256SignatureMethod}, {"spec256", dsig.ECDSASHA256SignatureMethod}} {
+		for qi, q := range c13EndpointQueries {
+			for wi, want := range wants {
+				for _, msg := range c13Messages {
+					for ri, relay := range []string{"", "a b&c=d#e+f/%?;é"} {
+						if !c.Thorough() && km[0] == "spec256" && (ri == 1 || qi > 5) {
+							continue
+						}
+						km, q, want, msg, relay := km, q, want, msg, relay
+						key := fmt.Sprintf("peer-shapes/key=%s/q=%d/want=%d/%s/relay=%d", km[0], qi, wi, msg, ri)
+						c.Case(key, func(t *core.T) {
+							t.NonTrivial()
+							sp := harness.NewSP(harness.SPOpt{SPKey: km[0], SignMethod: km[1], IDPSSOURL: samlgen.IDPSSO + q, IDPSLOURL: samlgen.IDPSLO + q})
+							for i := range sp.IDPMetadata.IDPSSODescriptors {
+								sp.IDPMetadata.IDPSSODescriptors[i].WantAuthnRequestsSigned = want
+							}
+							c13Emit(t, sp, km[0], km[1], msg, relay, key)
+						})
+					}
+				}
+			}
+		}
+	}
 }
 
 // c13HeldOutputs: every ordered pair and triple of message kinds produced one after the other on one ServiceProvider; each output is
